@@ -193,6 +193,16 @@ def AllDone (s : State) : Prop := ∀ (i : Nat) (t : Thread), s.rem[i]? = some t
 def Enabled (s : State) (i : Nat) : Prop :=
   ∃ a r, s.rem[i]? = some (a :: r) ∧ canFire s i a = true
 
+/-- `Enabled` as a computable check -/
+def enabledB (s : State) (i : Nat) : Bool :=
+  match s.rem[i]? with
+  | some (a :: _) => canFire s i a
+  | _ => false
+
+/-- a deadlock: somebody is unfinished and nobody can move (computable check) -/
+def stuckB (s : State) : Bool :=
+  !(s.rem.all List.isEmpty) && (List.range s.rem.length).all (fun i => !enabledB s i)
+
 /-! ## Operations as critical sections -/
 
 /-- Every operation of every thread is exactly one critical section of the mutex `l`:
